@@ -47,7 +47,7 @@ type archetype struct {
 func (a *archetype) mutation(add, del []ComponentId, storageFactory func() Storage) *archetype {
 	curr := a
 	mask := a.mask.Copy()
-	cacheKey := charproc.NumberJoin(add, "") + charproc.NumberJoin(del, "")
+	cacheKey := charproc.NumberJoin(add, ",") + "|" + charproc.NumberJoin(del, ",")
 	if cache, exists := a.cache.Get(cacheKey); exists {
 		return cache
 	}
